@@ -39,8 +39,18 @@ package imagehash
 //@ spec imgW(img) = gconst("bmaxx", img) - gconst("bminx", img)
 //@ spec imgH(img) = gconst("bmaxy", img) - gconst("bminy", img)
 
-//@ pool pixelsPool64 *[]float64
-//@ pool pixelsPool256 *[]float64
+// Pool invariant: a pooled pixel buffer has exactly the size its hash needs - established by the pool's New function (the
+// package-level closures init$init$1 / init$init$2, in source order), assumed of what Get returns, an obligation at every Put.
+//@ pool pixelsPool64 *[]float64 inv [C19] len(*it) == 4096
+//@ pool pixelsPool256 *[]float64 inv [C19] len(*it) == 65536
+
+//@ func init$init$1
+//@   props C19
+//@   ensures [C19] is(r0, "*[]float64") && len(*as(r0, "*[]float64")) == 4096
+
+//@ func init$init$2
+//@   props C19
+//@   ensures [C19] is(r0, "*[]float64") && len(*as(r0, "*[]float64")) == 65536
 //@ pool pixelsPool32 *[]float32
 //@ pool pixelsPool256Alt *[]float32
 
